@@ -96,8 +96,9 @@ def run(ctx):
     _access_fields(ctx, r8, reg)
     r9 = ctx.rule("C01.R9", viewers.RULE_TEXT, "VIEW", floor=16)
     viewers.check(ctx, r9)
-    r10 = ctx.rule("C01.R10", "APPLY: constructor + _precompute + apply of the multiplicative appliers normfactor, lumi, staterror, shapesys, shapefactor interpreted END TO END (real ParamViewer/_TensorViewer, list tensors) on 2 modifiers x 2 samples x 3 channels x 4 bins, unbatched and with 2 batch rows: the factor in cell (modifier, sample, row, bin) is the modifier's own parameter component for that bin in that row where the sample declares it, and exactly 1 elsewhere", "APPLY", floor=10)
+    r10 = ctx.rule("C01.R10", "APPLY: constructor + _precompute + apply of the multiplicative appliers normfactor, lumi, staterror, shapesys, shapefactor and, with every interpolation code they accept, of normsys and histosys (cell value = the code's scalar reference function of that cell's down/nominal/up data and the modifier's own parameter, else the neutral element), interpreted END TO END (real ParamViewer/_TensorViewer/interpolators, list tensors) on 2 modifiers x 2 samples x 3 channels x 4 bins, unbatched and with 2 batch rows: the factor in cell (modifier, sample, row, bin) is the modifier's own parameter component for that bin in that row where the sample declares it, and exactly 1 elsewhere", "APPLY", floor=20)
     _apply_end_to_end(ctx, r10, reg)
+    _apply_interpolating(ctx, r10, reg)
     r11 = ctx.rule("C01.R11", "BUILD: _nominal_and_modifiers_from_spec interpreted END TO END with the real nominal builder and all seven modifier builders on a 3-channel (listed out of order) x 2-sample specification in which every modifier type occurs once or twice and one sample is absent from a channel: nominal rates and every builder tensor follow config.channels x config.samples; a cell is masked in exactly where the sample declares the modifier; undeclared cells carry the neutral data (nominal / 1 / 0); each applier receives its own type's modifiers, the configuration, its own builder data and the batch size", "BUILD", floor=9)
     _build_end_to_end(ctx, r11, reg)
 
@@ -663,3 +664,99 @@ def _build_end_to_end(ctx, rid, reg):
         ctx.holds(rid, f"{site} parameter requirements", f"one requirement list per parameter name {names}")
     else:
         ctx.violated(rid, f, "parameter requirements", "the parameter requirements handed on are not keyed by exactly the declared modifier names", expected=str(names), found=str(sorted(fa[1]) if fa and len(fa) == 2 and isinstance(fa[1], dict) else fa))
+
+
+def _apply_interpolating(ctx, rid, reg):
+    """normsys / histosys end to end: constructor (real ParamViewer and real interpolator), _precompute, apply."""
+    from fractions import Fraction as F_
+    from ..alg import same_value
+    from .c03 import pairs, slow_kernel
+    repo = ctx.repo
+    at, c = Poly.atom, Poly.const
+    T, Fl = True, False
+    prs = {str(k): (f, s_) for k, f, s_, _ in pairs(repo)}
+    samples = ["s1", "s2"]
+    masks = {"mZ": {"s1": [Fl, Fl, Fl, Fl], "s2": [T, Fl, T, T]}, "mA": {"s1": [Fl, T, Fl, Fl], "s2": [Fl, T, Fl, Fl]}}
+
+    def sl(a_, b_):
+        return Obj("slice", {"start": c(a_), "stop": c(b_)})
+
+    start = {"mA": 2, "mZ": 3}
+    pm = {"other": {"slice": sl(0, 2)}, "mA": {"slice": sl(2, 3)}, "mZ": {"slice": sl(3, 4)}}
+    for key, neutral in (("normsys", "1"), ("histosys", "0")):
+        if key not in reg:
+            ctx.unrecognised(rid, None, key, "applier missing from the registry")
+            continue
+        b, cl = reg[key]
+        init = cl.methods["__init__"]
+        codes = []
+        for n in ast.walk(init.node):
+            if isinstance(n, ast.Assert) and isinstance(n.test, ast.Compare) and isinstance(n.test.comparators[0], (ast.List, ast.Tuple)):
+                codes = [A.const_value(x) for x in n.test.comparators[0].elts]
+        if not codes:
+            ctx.unrecognised(rid, init, f"{cl.name} accepted codes", "no `assert self.interpcode in [...]` found")
+            continue
+        for code in codes:
+            pr = prs.get(code.replace("code", ""))
+            if pr is None:
+                ctx.unrecognised(rid, init, f"{cl.name} [{code}]", "accepted interpolation code is not in interpolators.get")
+                continue
+            fast, slow = pr
+            km = slow_kernel(slow)
+            for bs in (None, 2):
+                rows = bs or 1
+                site = f"{cl.relpath}::{cl.name} end to end [{code}, batch_size={bs}]"
+                region = AutoRegion()
+                try:
+                    w = viewers.world(repo)
+                    w.region = region
+                    w.add_class(cl).add_class(slow)
+                    iattrs = {}
+                    for k2, (f2, _s2) in prs.items():
+                        w.add_class(f2)
+                        iattrs[f2.name] = PyFunc(lambda a_, kw_, f2=f2: w.new(f2, a_, kw_), f2.name)
+                    w.module_env["interpolators"] = Obj("interpolators", iattrs)
+                    w.module_env["math"] = Obj("math")
+
+                    def data(m, s_):
+                        d = {"mask": list(masks[m][s_]), "nom_data": [at(f"n_{m}_{s_}_{j}") for j in range(4)]}
+                        if key == "normsys":
+                            d["lo"], d["hi"], d["nom_data"] = [at(f"lo_{m}_{s_}")] * 4, [at(f"hi_{m}_{s_}")] * 4, [c(1)] * 4
+                        else:
+                            d["lo_data"], d["hi_data"] = [at(f"lo_{m}_{s_}_{j}") for j in range(4)], [at(f"hi_{m}_{s_}_{j}") for j in range(4)]
+                        return d
+
+                    bd = {f"{key}/{m}": {s_: {"data": data(m, s_)} for s_ in samples} for m in ("mZ", "mA")}
+                    cfg = Obj("pdfconfig", {"samples": list(samples), "channels": ["c"], "channel_nbins": {"c": c(4)}, "npars": c(4), "par_map": pm})
+                    inst = w.new(cl, [[("mZ", key), ("mA", key)], cfg, bd], {"interpcode": code, "batch_size": None if bs is None else c(bs)})
+                    pname = (lambda r, j: f"p{j}") if bs is None else (lambda r, j: f"p{r}_{j}")
+                    vals = {(0, 2): F_(1, 2), (0, 3): F_(-3, 2), (1, 2): F_(-5, 2), (1, 3): F_(2)}
+                    for (r, j), v in vals.items():
+                        if r < rows:
+                            region[pname(r, j)] = v
+                    pinned = {k_: v_ for k_, v_ in region.items() if k_.startswith("p")}
+                    pars = [at(pname(0, j)) for j in range(4)] if bs is None else [[at(pname(r, j)) for j in range(4)] for r in range(rows)]
+                    out = w.call_method(inst, "apply", [listnp.wrap(pars)])
+                    ref = w.new(slow, [[]], {})
+                    bad = None
+                    for mi, m in enumerate(("mZ", "mA")):
+                        for si, s_ in enumerate(samples):
+                            for r in range(rows):
+                                for j in range(4):
+                                    got = out[mi][si][r][j]
+                                    if masks[m][s_][j]:
+                                        d = bd[f"{key}/{m}"][s_]["data"]
+                                        lo_, nom_, hi_ = (d["lo"][j], d["nom_data"][j], d["hi"][j]) if key == "normsys" else (d["lo_data"][j], d["nom_data"][j], d["hi_data"][j])
+                                        want = w.call_method(ref, km.node.name, [lo_, nom_, hi_, at(pname(r, start[m]))])
+                                    else:
+                                        want = Poly.const(int(neutral))
+                                    if same_value(got, want, pinned=pinned) is not True and bad is None:
+                                        bad = (m, s_, r, j, str(to_poly(got))[:140], str(to_poly(want))[:140])
+                    if listnp._shape(out) != (2, 2, rows, 4):
+                        ctx.violated(rid, cl.methods["apply"], f"{cl.name} result shape [{code}, batch_size={bs}]", "the modification tensor is not (modifiers, samples, batch rows, bins)", expected=str((2, 2, rows, 4)), found=str(listnp._shape(out)))
+                    elif bad:
+                        ctx.violated(rid, cl.methods["apply"], f"{cl.name} cell [{code}, batch_size={bs}]", f"the {'factor' if key == 'normsys' else 'shift'} of modifier {bad[0]} on sample {bad[1]}, batch row {bad[2]}, bin {bad[3]} is not the interpolation of that cell's own variations at the modifier's own parameter (neutral element {neutral} where the sample does not declare it)", expected=bad[5], found=bad[4])
+                    else:
+                        ctx.holds(rid, site, f"2 x 2 x {rows} x 4 cells: scalar reference of the cell's own data at the modifier's own parameter, {neutral} elsewhere")
+                except (Undecided, KeyError, TypeError, ValueError, IndexError, AttributeError) as e:
+                    ctx.unrecognised(rid, cl, f"{cl.name} end to end [{code}, batch_size={bs}]", f"not interpretable: {type(e).__name__}: {e}")
